@@ -149,8 +149,18 @@ fn dump_crate<'tcx>(tcx: TyCtxt<'tcx>) -> J {
     if let Ok(list) = std::env::var("SSFACTS_FOREIGN") {
         let wanted: Vec<String> =
             list.split(',').map(|x| x.trim().to_string()).filter(|x| !x.is_empty()).collect();
-        let crates: std::collections::BTreeSet<String> =
+        let fn_crates: std::collections::BTreeSet<String> =
             wanted.iter().map(|w| w.trim_start_matches('<').split("::").next().unwrap().to_string()).collect();
+        let wanted_adts: Vec<String> = std::env::var("SSFACTS_FOREIGN_ADTS")
+            .unwrap_or_default()
+            .split(',')
+            .map(|x| x.trim().to_string())
+            .filter(|x| !x.is_empty())
+            .collect();
+        let mut crates = fn_crates.clone();
+        for w in &wanted_adts {
+            crates.insert(w.split("::").next().unwrap().to_string());
+        }
         let mut found = std::collections::BTreeSet::new();
         for &cnum in tcx.crates(()).iter() {
             let cname = tcx.crate_name(cnum).to_string();
@@ -166,13 +176,24 @@ fn dump_crate<'tcx>(tcx: TyCtxt<'tcx>) -> J {
                 for child in tcx.module_children(m).iter() {
                     let Some(did) = child.res.opt_def_id() else { continue };
                     if did.krate != cnum {
+                        // a re-export of another crate's type: only on explicit request
+                        if matches!(tcx.def_kind(did), DefKind::Struct | DefKind::Enum)
+                            && wanted_adts.contains(&tcx.def_path_str(did))
+                            && foreign_adt_seen.insert(did)
+                        {
+                            foreign_adts.push(cx.dump_adt(did));
+                        }
                         continue;
                     }
                     let mut cands: Vec<DefId> = Vec::new();
                     match tcx.def_kind(did) {
                         DefKind::Mod => stack.push(did),
-                        DefKind::Fn => cands.push(did),
-                        DefKind::Trait => {
+                        DefKind::Fn => {
+                            if fn_crates.contains(&cname) {
+                                cands.push(did)
+                            }
+                        }
+                        DefKind::Trait if fn_crates.contains(&cname) => {
                             for &a in tcx.associated_item_def_ids(did).iter() {
                                 if matches!(tcx.def_kind(a), DefKind::AssocFn) {
                                     cands.push(a);
@@ -190,8 +211,14 @@ fn dump_crate<'tcx>(tcx: TyCtxt<'tcx>) -> J {
                             }
                         }
                         DefKind::Struct | DefKind::Enum => {
-                            if foreign_adt_seen.insert(did) {
+                            let in_fn_crate = fn_crates.contains(&cname);
+                            if (in_fn_crate || wanted_adts.contains(&tcx.def_path_str(did)))
+                                && foreign_adt_seen.insert(did)
+                            {
                                 foreign_adts.push(cx.dump_adt(did));
+                            }
+                            if !in_fn_crate {
+                                continue;
                             }
                             for &imp in tcx.inherent_impls(did).iter() {
                                 for &a in tcx.associated_item_def_ids(imp).iter() {
